@@ -165,10 +165,12 @@ class ConfigureV1(Spec):
 
 def v1_units():
     units = []
+    # the grid file and the forcing file may each be named in the gridforce or in the files section, independently
     for gridfile in (None, "gridforce", "files"):
-        for subgrid in (False, True):
-            for ibm, continuous in ((False, False), (True, True), (True, False)):
-                units.append(ConfigureV1(gridfile, "gridforce" if gridfile != "files" else "files", subgrid, ibm, ibm, continuous, subgrid, ibm))
+        for inputfile in ("gridforce", "files"):
+            for subgrid in (False, True):
+                for ibm, continuous in ((False, False), (True, True), (True, False)):
+                    units.append(ConfigureV1(gridfile, inputfile, subgrid, ibm, ibm, continuous, subgrid, ibm))
     units.append(ConfigureV1(None, "files", True, False, False, False, False, True))
     return units
 
